@@ -602,14 +602,112 @@ def w_ext(job):
     return sh.result()
 
 
+# ---------------------------------------------------------------------------
+# modules reached through symbolic links, containing relative imports: the import system anchors a relative import at the package
+# the module was imported AS, not at the directory the file really lives in. Reference: CPython importing the tree in a child process
+
+LINK_CHILD = r'''
+import sys, json, importlib
+sys.path.insert(0, sys.argv[1])
+out = {}
+for name in sys.argv[2:]:
+    try:
+        m = importlib.import_module(name)
+        out[name] = sorted(n for n in dir(m.thing) if n.startswith('tag_'))
+    except Exception as e:
+        out[name] = ['<raises>', type(e).__name__]
+json.dump(out, sys.stdout)
+'''
+
+
+def link_case(depth, link_dir, level2, order):
+    import json
+    import subprocess
+    from supp.project import Project
+    from supp import assistant
+    base = tempfile.mkdtemp(prefix='c07l_')
+    try:
+        root = os.path.join(base, 'src')
+        pkgs = {}
+        for which in ('alpha', 'beta'):
+            parts = [which] + ['sub%d' % i for i in range(depth)]
+            d = root
+            for p_ in parts:
+                d = os.path.join(d, p_)
+                os.makedirs(d, exist_ok=True)
+                with open(os.path.join(d, '__init__.py'), 'w') as f:
+                    f.write('')
+            pkgs[which] = ('.'.join(parts), d)
+            with open(os.path.join(d, 'util.py'), 'w') as f:
+                f.write('class thing(object):\n    tag_%s_util = 1\n' % which)
+            with open(os.path.join(os.path.dirname(d) if depth else d, 'up.py'), 'w') as f:
+                f.write('class thing(object):\n    tag_%s_up = 1\n' % which)
+        # the real file lives in alpha; beta reaches it through a link (the file alone, or its whole directory level)
+        adir, bdir = pkgs['alpha'][1], pkgs['beta'][1]
+        body = ('from ..up import thing\n' if (level2 and depth) else 'from .util import thing\n') + 'from . import util as sibling\n'
+        with open(os.path.join(adir, 'tool.py'), 'w') as f:
+            f.write(body)
+        if link_dir and depth:
+            # beta/.../subN is replaced by a link to alpha's directory of the same level: everything in it is shared
+            shutil.rmtree(bdir)
+            os.symlink(adir, bdir)
+        else:
+            os.symlink(os.path.join(adir, 'tool.py'), os.path.join(bdir, 'tool.py'))
+        names = [pkgs['alpha'][0] + '.tool', pkgs['beta'][0] + '.tool']
+        child = os.path.join(base, 'child.py')
+        with open(child, 'w') as f:
+            f.write(LINK_CHILD)
+        p = subprocess.run([sys.executable, child, root] + names, capture_output=True, text=True, timeout=120, env=dict(os.environ, PYTHONDONTWRITEBYTECODE='1'))
+        if p.returncode != 0:
+            raise core.HarnessError('C07 link child failed: ' + p.stderr[-300:])
+        want = json.loads(p.stdout)
+        project = Project([root])
+        probs = []
+        for i in order:
+            name = names[i % 2]
+            src = 'from %s import thing\nthing.' % name
+            try:
+                props = assistant.assist(project, src, (2, 6), os.path.join(base, 'probe.py'))[1]
+                got = sorted(x for x in props if x.startswith('tag_'))
+            except Exception as e:
+                got = ['<raises>', type(e).__name__]
+            if got != want[name] and want[name][:1] != ['<raises>']:
+                probs.append(('import-statement:relative:through-a-link', '%s (depth %d, %s linked, level %d): the object bound by its relative import shows %s under supp, %s when CPython imports it' % (
+                    name, depth, 'directory' if link_dir and depth else 'file', 2 if level2 and depth else 1, got, want[name])))
+                break
+        return probs
+    finally:
+        shutil.rmtree(base, ignore_errors=True)
+
+
+def w_links(job):
+    import itertools
+    sh = Shard()
+    cases = [(d, ld, l2, list(o)) for d in (0, 1, 2) for ld in (False, True) for l2 in (False, True) for o in ((0, 1), (1, 0), (1, 1, 0))]
+    for k, case in enumerate(cases):
+        if k % 2 != job:
+            continue
+        probs = link_case(*case)
+        sh.case(case, True, {'linked_module': {'depth': case[0], 'directory_link': case[1], 'level2': case[2], 'order': case[3]}})
+        sh.count('link-trees')
+        for sig, detail in probs:
+            if sig not in [v['signature'] for v in sh.violations]:
+                sh.violation(sig, {'kind': 'link', 'case': list(case)}, detail)
+    return sh.result()
+
+
 def run(run):
     selftest()
+    run.pmap(w_links, [0, 1])
     run.pmap(w_ext, [(i, core.derive_seed(run.seed, 'ext', i), run.pick(12, 150)) for i in range(8)])
     n = run.pick(100, 1500)
     run.pmap(w_trees, [(i, core.derive_seed(run.seed, 'trees', i), n) for i in range(16)])
 
 
 def replay(spec):
+    if spec.get('kind') == 'link':
+        c = spec['case']
+        return [{'signature': sig, 'case': spec, 'detail': detail} for sig, detail in link_case(c[0], c[1], c[2], c[3])]
     if spec.get('kind') == 'ext':
         probs, _ = ext_case([(r, tuple(p), s_) for r, p, s_ in spec['layout']], spec['on_sys_path'], spec['order'])
         return [{'signature': sig, 'case': spec, 'detail': detail} for sig, detail in probs[:1]]
